@@ -1,7 +1,7 @@
 META = dict(
     engine='seqx',
     technique='explicit-state model checking: BFS over schedule/select/re-schedule histories on the real ap, ip and spq scheduler modules (single stream), reference priority queue, full drain checked in every state',
-    level_text='All histories of schedule(ring<=3 over 3 priorities, every ring order, distance 0..2) / select / re-schedule-last-selected(distance 1..2) up to depth 6 (quick) or 8 (thorough; spq 7) are applied to the real module installed by parsec_init through mca_sched, deduplicated by the concrete queue contents; every select - and a complete drain of every reached state - is compared with a reference queue (ap, spq: highest priority first, ties in scheduling order; spq: smallest distance first; ip: lowest priority first).',
+    level_text='All histories over the alphabet { schedule(ring of 1..3 tasks, every priority word over 3-4 priority values = every ring order, distance 0..2) , select , re-schedule-the-last-selected-task(distance 1..2) } are applied to the real ap / ip / spq module installed by parsec_init through mca_sched (single stream), deduplicated by the concrete queue contents. Quick: ap and ip to depth 6 (full alphabet), spq to depth 4 (full alphabet) and depth 5-6 (rings <= 2); thorough: ap, ip depth 8, spq depth 5 (full) and 6-8 (reduced rings). Every select - and a complete drain of every reached state - is compared with a reference queue: ap, spq highest priority first with ties in scheduling order; spq smallest distance first; ip lowest priority first whatever the distance.',
     level_note='Single execution stream, no concurrency (as the property states). Priority values from three value sets (small, mixed sign, INT_MIN/INT_MAX). ip is checked for all distances (the distance>0 defect found by this check was repaired by commit 016fb05; mutants/C09/05 re-introduces it).',
 )
 RULE = ("seqx BFS over operation histories on the real scheduler module, states deduplicated by the walk of the real queue(s) "
